@@ -85,8 +85,11 @@ def run(ctx):
                 # at the maximum) by the very datagram that carries the answer - observation O2 in DESIGN.md, not judged
                 continue
             pick = random.Random(ctx.seed * 13 + maxr + len(mode)).sample(plain, min(len(plain), 150 if thorough else 40))
-            for h in pick:
+            for k, h in enumerate(pick):
                 stim.append({"t": len(stim) + 1, "mode": mode, "maxr": maxr, "at": 2, "steps": h})
+                if k % 4 == 0:
+                    # ... and with an ACK_TIMEOUT that is not the default: every instant of the history doubled, ACK_TIMEOUT 4 s
+                    stim.append({"t": len(stim) + 1, "mode": mode, "maxr": maxr, "at": 4, "steps": [dict(a, t=a["t"] * 2) if "t" in a else a for a in h]})
             ctx.cov["histories_on_" + mode] = ctx.cov.get("histories_on_" + mode, 0) + len(pick)
     if not stim:
         raise vf.Machinery("no histories generated")
@@ -108,7 +111,7 @@ def run(ctx):
         acts = [[e["act"]["a"], e["act"]["t"]] for e in t0["ev"]]
         kinds = sorted(set(a[0] for a in acts))
         vf.report(ctx, clause, {"event_kinds": kinds, "maxr": t0["maxr"]},
-                  "%d recorded history(ies) violate the clause; shortest (MAX_RETRANSMIT=%d, ACK_TIMEOUT=2): %s -> copies at ticks %s, call returned %s" % (
+                  "%d recorded history(ies) violate the clause; shortest (MAX_RETRANSMIT=%d, ACK_TIMEOUT=%d): %s -> copies at ticks %s, call returned %s" % (
                       len(ts), t0["maxr"], json.dumps(acts), [c["at"] for c in t0["copies"]], t0["final"]["ret"]),
                   {"trace": t0, "cmd": "bin/check C06 --tier %s" % ctx.tier})
 
